@@ -12,14 +12,19 @@
    The FILE-LEVEL theorems (written files verify and read back under verify_checksums; a damaged
    block of a written file is rejected by mtbl_verify and stops a verifying reader at the first
    operation that loads it) are T12a_* / T12b_file_* in the second part of this file.
-   NOT proved: double flips more than 31 bit positions apart (that needs the multiplicative
-   order of x modulo the generator, about 2^31); they are sampled by engine c12 on real files,
-   which also runs mtbl_verify and a verify_checksums reader on every intact writer-made file
+   T12e_double_flips - ANY two flipped bits, however far apart, in a frame (stored bytes ++ field)
+     of at most 2^31 - 1 bits (a block below 256 MiB) are detected: 2^31 - 1 is prime (trial
+     division inside Coq), x^(2^31-1) = 1 modulo the generator (repeated squaring, vm_compute) and
+     x <> 1, so x has order exactly 2^31 - 1 and x^a + x^b is never 0 for a <> b in that range
+     (proofs/CrcPrime.v, CrcOrder.v, CrcDouble.v).  With T12c (bursts) and T12d (1 and 3 flips)
+     this is the property's whole damage clause: one to three bits or a burst of up to 32 bits.
+   The FILE-LEVEL theorems carry all of them to mtbl_verify and to the verifying reader.
+   Engine c12 runs mtbl_verify and a verify_checksums reader on every intact writer-made file
    and on files damaged in data blocks and in the index block (payload and checksum field). *)
 From Coq Require Import NArith ZArith List Lia Bool.
 From Mtbl Require Import gen.Consts model.Bytes model.Codec model.Crc model.Writer spec.Leb128 spec.Parse
   model.Reader model.Verify model.Order model.Block proofs.BytesLemmas proofs.CodecProofs proofs.WriterProofs proofs.MetaProofs proofs.BlockProofs proofs.ReaderProofs
-  proofs.BlockRT proofs.VerifyProofs proofs.TableRT proofs.VerifyFile proofs.VerifyIter proofs.VerifyDamaged proofs.VerifyShape proofs.CrcDetect proofs.CrcBurst.
+  proofs.BlockRT proofs.VerifyProofs proofs.TableRT proofs.VerifyFile proofs.VerifyIter proofs.VerifyDamaged proofs.VerifyShape proofs.CrcDetect proofs.CrcBurst proofs.CrcPrime proofs.CrcOrder proofs.CrcDouble.
 (* source ties: the statements of the C functions the model follows (gen/Ties.v is regenerated from /repo on every run) *)
 From Mtbl Require props.Ties_C12.
 Local Open Scope N_scope.
@@ -78,6 +83,28 @@ Proof.
     destruct (N.testbit 98304 i); [cbn in H16; lia|reflexivity].
   - apply N.bits_above_log2. vm_compute (N.log2 _). lia.
 Qed.
+
+(* T12e: double flips at ANY distance.  The hypothesis says that the intact and the damaged frame, read as one
+   little-endian number, differ exactly at the two bit positions i < j; the frame has at most 2^31 - 1 bits *)
+Theorem T12e_double_flips : forall s s' f' i j, wf_bytes s -> wf_bytes s' -> f' < 2 ^ 32 -> length s = length s' ->
+  (i < j)%nat -> N.of_nat (8 * (length s + 4)) <= 2147483647 ->
+  N.lxor (le_value (framed s (crc32c_ref s))) (le_value (framed s' f')) = N.lxor (2 ^ N.of_nat i) (2 ^ N.of_nat j) ->
+  f' <> crc32c_ref s'.
+Proof. exact double_flip_detected. Qed.
+Print Assumptions T12e_double_flips.
+
+(* the arithmetic behind it: the Mersenne number is prime and is the order of x modulo the generator *)
+Theorem T12e_order_of_x : (forall d, 1 < d < 2147483647 -> 2147483647 mod d <> 0) /\
+  ppow 2147483647 = U /\ (forall k, (0 < k)%nat -> N.of_nat k < 2147483647 -> Sn k U <> U).
+Proof. split; [exact M31_prime|]. split; [exact ppow_M31|exact order_U]. Qed.
+Print Assumptions T12e_order_of_x.
+
+(* non-vacuity: two flips 40 bits apart (outside every 32-bit burst), one in the payload and one in the field *)
+Example T12e_example :
+  let s := [1; 2; 3; 4; 5; 6] in
+  N.lxor (le_value (framed s (crc32c_ref s))) (le_value (framed [1; 2; 7; 4; 5; 6] (N.lxor (crc32c_ref s) (2 ^ 10))))
+  = N.lxor (2 ^ N.of_nat 18) (2 ^ N.of_nat 58) /\ N.lxor (crc32c_ref s) (2 ^ 10) <> crc32c_ref [1; 2; 7; 4; 5; 6].
+Proof. split; [vm_compute; reflexivity|vm_compute; discriminate]. Qed.
 
 Example T12_example :
   T12d_odd_weight_errors_detected = T12d_odd_weight_errors_detected /\
@@ -302,11 +329,20 @@ Definition burst_damage (s : bytes) (c : N) (s' : bytes) : Prop :=
   exists lo : nat, forall i, (i < N.of_nat lo \/ N.of_nat lo + 32 <= i) ->
     N.testbit (N.lxor (le_value (framed s (crc32c_ref s))) (le_value (framed s' c))) i = false.
 
-Lemma damage_detected s c s' : wf_bytes s -> c < 2 ^ 32 -> odd_damage s c s' \/ burst_damage s c s' -> c <> crc32c_ref s'.
+(* double_damage: exactly two bits differ, at any distance, in a frame of at most 2^31 - 1 bits *)
+Definition double_damage (s : bytes) (c : N) (s' : bytes) : Prop :=
+  wf_bytes s' /\ length s = length s' /\ N.of_nat (8 * (length s + 4)) <= 2147483647 /\
+  exists i j : nat, (i < j)%nat /\
+    N.lxor (le_value (framed s (crc32c_ref s))) (le_value (framed s' c)) = N.lxor (2 ^ N.of_nat i) (2 ^ N.of_nat j).
+Definition detected_damage (s : bytes) (c : N) (s' : bytes) : Prop :=
+  odd_damage s c s' \/ burst_damage s c s' \/ double_damage s c s'.
+
+Lemma damage_detected s c s' : wf_bytes s -> c < 2 ^ 32 -> detected_damage s c s' -> c <> crc32c_ref s'.
 Proof.
-  intros Hw Hc [[Hl Hp]|(Hw' & Hl & Hne & lo & Hb)].
+  intros Hw Hc [[Hl Hp]|[(Hw' & Hl & Hne & lo & Hb)|(Hw' & Hl & Hsz & i & j & Hij & Hx)]].
   - exact (odd_errors_detected s s' c Hl Hp).
   - exact (burst_detected s s' c lo Hw Hw' Hc Hl Hne Hb).
+  - exact (double_flip_detected s s' c i j Hw Hw' Hc Hl Hij Hsz Hx).
 Qed.
 
 (* a data block hit by an odd number of bit flips or by a burst of at most 32 bits: mtbl_verify fails and
@@ -319,7 +355,7 @@ Theorem T12b_file_data_flips : forall o prefix ops w' rs,
     layout compress_default compress_level o prefix ops w' rs ds ib ips iridx /\
     forall i c s', (i < length ds)%nat ->
       let s := d_stored (nth i ds dummy_d) in
-      len s' = len s -> c < 2 ^ 32 -> odd_damage s c s' \/ burst_damage s c s' ->
+      len s' = len s -> c < 2 ^ 32 -> detected_damage s c s' ->
       let f' := pre_of prefix ds i ++ fr c s' ++ post_of w' ds ib i in
       verify_file f' = VFailed /\
       forall fuel, (length (all_entries (firstn i ds) []) < fuel)%nat -> read_all_v decompress true fuel f' = Abort.
@@ -341,7 +377,7 @@ Theorem T12b_file_index_flips : forall o prefix ops w' rs,
   ops_ok o ops -> meta_small (w_m w') -> len (prefix ++ writer_bytes w') < 2 ^ 64 ->
   exists pre idx,
     prefix ++ writer_bytes w' = pre ++ fr (crc32c_ref idx) idx ++ metadata_write (w_m w') /\
-    forall c idx', len idx' = len idx -> c < 2 ^ 32 -> odd_damage idx c idx' \/ burst_damage idx c idx' ->
+    forall c idx', len idx' = len idx -> c < 2 ^ 32 -> detected_damage idx c idx' ->
       let f' := pre ++ fr c idx' ++ metadata_write (w_m w') in
       fst (reader_open f' true) = Abort /\ verify_file f' = VAbort.
 Proof.
